@@ -12,7 +12,7 @@ EXTENDS Word, TLC
 CONSTANTS W,        \* width under test, <= 14 so that products stay below 2^31
           FullB     \* TRUE: b ranges over all W-bit values; FALSE: over a boundary set
 
-VARIABLES a, b, ph
+VARIABLES a, b, ph, za, zb     \* za, zb: the BigZ forms of a, b (state variables: evaluated once)
 
 Lo == -Pow2[W - 1]
 Hi == Pow2[W - 1] - 1
@@ -40,13 +40,13 @@ NGcd(x, y) == IF y = 0 THEN x ELSE NGcd(y, x % y)
 RECURSIVE NLen(_)
 NLen(n) == IF n = 0 THEN 0 ELSE 1 + NLen(n \div 2)
 
-ZA == FromInt(a)
-ZB == FromInt(b)
+ZA == za
+ZB == zb
 
-Init == a = 0 /\ b = 0 /\ ph = 0
-Next == \/ /\ ph = 0 /\ a' \in RangeA /\ b' = 0 /\ ph' = 1
-        \/ /\ ph = 1 /\ b' \in RangeB /\ a' = a /\ ph' = 2
-Spec == Init /\ [][Next]_<<a, b, ph>>
+Init == a = 0 /\ b = 0 /\ ph = 0 /\ za = Zero /\ zb = Zero
+Next == \/ /\ ph = 0 /\ a' \in RangeA /\ b' = 0 /\ ph' = 1 /\ za' = FromInt(a') /\ zb' = Zero
+        \/ /\ ph = 1 /\ b' \in RangeB /\ a' = a /\ ph' = 2 /\ za' = za /\ zb' = FromInt(b')
+Spec == Init /\ [][Next]_<<a, b, ph, za, zb>>
 
 Wraps ==
   /\ ToInt(SWrap(FromInt(a + b), W)) = NWrap(a + b)
